@@ -437,6 +437,12 @@ func (fb *FB) lin1(v ssa.Value) Lin {
 		if b, ok := x.Call.Value.(*ssa.Builtin); ok && (b.Name() == "min" || b.Name() == "max") {
 			return linSym(v)
 		}
+		// a one-expression helper over its parameters (entry sizes, header sizes): its value over the arguments
+		if isIntType(x.Type()) {
+			if l, ok := fb.linThroughPlainCall(x); ok {
+				return l
+			}
+		}
 	case *ssa.UnOp:
 		if x.Op == token.MUL {
 			if sv := fb.singleStoreLoad(x); sv != nil {
@@ -874,6 +880,31 @@ func (fb *FB) rng1(v ssa.Value) (int64, int64) {
 					if h < hi {
 						hi = h
 					}
+				}
+				return lo, hi
+			case "max":
+				lo, hi := int64(ninf), int64(ninf)
+				for _, a := range x.Call.Args {
+					l, h := fb.rng(a)
+					if l > lo {
+						lo = l
+					}
+					if h > hi {
+						hi = h
+					}
+				}
+				return lo, hi
+			}
+		}
+		// a one-expression helper over its arguments
+		if isIntType(x.Type()) {
+			if l, ok := fb.linThroughPlainCall(x); ok {
+				lo, hi := fb.linRange(l)
+				if lo < tlo {
+					lo = tlo
+				}
+				if hi > thi {
+					hi = thi
 				}
 				return lo, hi
 			}
@@ -2614,4 +2645,63 @@ func (c *Ctx) successSummaryConst(fn *ssa.Function, consts map[int]int64) []Lin 
 		}
 	}
 	return common
+}
+
+// linThroughPlainCall: call is a static call of a module function with one integer result, a single block and a return
+// expression built from parameters and constants by + - * (one factor constant) and integer conversions.
+func (fb *FB) linThroughPlainCall(call *ssa.Call) (Lin, bool) {
+	callee := call.Call.StaticCallee()
+	if callee == nil || callee.Blocks == nil || !inModule(fnPkgPath(callee)) || len(callee.Params) != len(call.Call.Args) || len(callee.Blocks) != 1 || callee == fb.fn {
+		return Lin{}, false
+	}
+	rt, ok := callee.Blocks[0].Instrs[len(callee.Blocks[0].Instrs)-1].(*ssa.Return)
+	if !ok || len(rt.Results) != 1 {
+		return Lin{}, false
+	}
+	var tr func(v ssa.Value, d int) (Lin, bool)
+	tr = func(v ssa.Value, d int) (Lin, bool) {
+		if d > 8 {
+			return Lin{}, false
+		}
+		switch y := v.(type) {
+		case *ssa.Const:
+			if k, ok := constInt(y); ok {
+				return linConst(k), true
+			}
+		case *ssa.Parameter:
+			if i := paramIndex(callee, y); i >= 0 {
+				return fb.lin(call.Call.Args[i]), true
+			}
+		case *ssa.Convert:
+			if isIntType(y.Type()) && isIntType(y.X.Type()) {
+				// widening or same-width conversions of small values, as in the callee's own arithmetic
+				_, shi := fb.typeRange(y.X.Type())
+				_, thi := fb.typeRange(y.Type())
+				if shi <= thi || sameWidthIntUint(y.X.Type(), y.Type()) {
+					return tr(y.X, d+1)
+				}
+			}
+		case *ssa.BinOp:
+			a, ok1 := tr(y.X, d+1)
+			b, ok2 := tr(y.Y, d+1)
+			if !ok1 || !ok2 {
+				return Lin{}, false
+			}
+			switch y.Op {
+			case token.ADD:
+				return a.add(b, 1), true
+			case token.SUB:
+				return a.add(b, -1), true
+			case token.MUL:
+				if a.isConst() && abs64(a.C) < 1<<31 {
+					return b.scale(a.C), true
+				}
+				if b.isConst() && abs64(b.C) < 1<<31 {
+					return a.scale(b.C), true
+				}
+			}
+		}
+		return Lin{}, false
+	}
+	return tr(rt.Results[0], 0)
 }
